@@ -400,8 +400,8 @@ func (sw *SingleAddressWallet) selectUTXOs(amount types.Currency, inputs int, us
 	if len(utxos) > sw.cfg.DefragThreshold && txnInputs < sw.cfg.MaxInputsForDefrag {
 		// add the smallest utxos to the transaction
 		defraggable := utxos
-		if len(defraggable) > sw.cfg.MaxDefragUTXOs {
-			defraggable = defraggable[len(defraggable)-sw.cfg.MaxDefragUTXOs:]
+		if n := max(sw.cfg.MaxDefragUTXOs, 0); len(defraggable) > n {
+			defraggable = defraggable[len(defraggable)-n:]
 		}
 		for i := len(defraggable) - 1; i >= 0; i-- {
 			if txnInputs >= sw.cfg.MaxInputsForDefrag {
